@@ -66,7 +66,8 @@ type scriptItem struct {
 
 // txModel points at the component nodes of one transaction.
 type txModel struct {
-	Body, Wit, Aux *xcbor.Node // Aux nil when the tx has none
+	Body, Wit, Aux *xcbor.Node   // Aux nil when the tx has none
+	AuxAll         []*xcbor.Node // every aux-map entry keyed with the tx index (more than one only for a duplicated key)
 	HasOutputs     bool
 	Outputs        []*xcbor.Node
 	Datums         []*xcbor.Node
@@ -193,6 +194,11 @@ func buildModel(typ uint, root *xcbor.Node) (*blockModel, error) {
 			// the last entry wins for a duplicated key, as in a map decoder;
 			// generated blocks never contain duplicates
 			tx.Aux = aux.MapGet(uint64(i))
+			for j := 0; j+1 < len(aux.Items); j += 2 {
+				if k := aux.Items[j]; k.Kind == xcbor.Uint && k.Arg == uint64(i) {
+					tx.AuxAll = append(tx.AuxAll, aux.Items[j+1])
+				}
+			}
 			fillShelleyTx(&tx)
 			m.Txs = append(m.Txs, tx)
 		}
